@@ -247,6 +247,11 @@ def run_case(case):
             mp_ = mp_ * (mu / (G * mtot))
             sim.add(m=m0)
             sim.add(m=mp_, x=s0[0], y=s0[1], z=s0[2], vx=s0[3], vy=s0[4], vz=s0[5])
+            if mp_ == 0.0 and integ != 'whfast512' and r.random() < 0.5:
+                # the orbiting body as a genuine test particle (index >= N_active): the integrators take a separate branch for those
+                sim.N_active = 1
+                sim.testparticle_type = r.choice([0, 1])
+                counters['steps_with_testparticle_planet'] = counters.get('steps_with_testparticle_planet', 0) + 1
             if integ.startswith('whfast:'):
                 sim.integrator = 'whfast'
                 sim.ri_whfast.coordinates = integ.split(':')[1]
